@@ -54,14 +54,15 @@ type vEnv struct {
 
 	// worker pool: cases run in up to `workers` goroutines of this process;
 	// slot i holds the case in flight on worker i (-1: idle), guarded by mu
-	workers  int
-	slots    chan int
-	slotIdx  []int64
-	slotT    []time.Time
-	skip     map[int]bool
-	wg       sync.WaitGroup
-	slow     []string // the slowest cases (diagnostics)
-	slowT    []float64
+	workers    int
+	slots      chan int
+	slotIdx    []int64
+	slotT      []time.Time
+	skip       map[int]bool
+	wg         sync.WaitGroup
+	everyShard bool     // every shard runs every case (cross-process oracles)
+	slow       []string // the slowest cases (diagnostics)
+	slowT      []float64
 }
 
 func vGetenvInt(name string, def int) int {
@@ -208,6 +209,7 @@ type vCase struct {
 	sig     uint64
 	obs     map[string]interface{}
 	slot    int
+	emit    bool // always log the observations of this case (ev=obs)
 }
 
 func vCaseSeed(seed int64, prop string, idx int) int64 {
@@ -224,7 +226,7 @@ func (e *vEnv) selected(idx int) bool {
 	if idx < e.from || e.skip[idx] {
 		return false
 	}
-	return idx%e.nshards == e.shard
+	return e.everyShard || idx%e.nshards == e.shard
 }
 
 // run executes one case body under recover(), after recording the case as
@@ -395,6 +397,9 @@ func (cs *vCase) end() {
 		}
 	}
 	e.mu.Unlock()
+	if cs.emit {
+		e.event(map[string]interface{}{"ev": "obs", "idx": cs.idx, "gen": cs.gen, "shard": e.shard, "obs": cs.obs})
+	}
 	if cs.verdict == "ok" && !sample {
 		return
 	}
